@@ -65,10 +65,12 @@ func (g *gen) pickAuth() int {
 
 func (g *gen) pickBase() int {
 	switch x := g.r.Intn(100); {
-	case x < 70:
-		return []int{0, 0, 1, 1, 3, 3, 4, 5, 6}[g.r.Intn(9)]
-	case x < 85:
+	case x < 50:
+		return []int{0, 0, 1, 1, 3, 3, 4, 5, 6, 6}[g.r.Intn(10)]
+	case x < 60:
 		return 2
+	case x < 84:
+		return []int{8, 8, 9, 10, 11, 11}[g.r.Intn(6)]
 	case x < 92:
 		return 7
 	default:
@@ -143,7 +145,7 @@ func (g *gen) op() Op {
 	o := Op{K: k, A: a, P: g.r.Intn(3), Slot: g.r.Intn(4), PP: g.r.Intn(3), Name: g.r.Intn(3), Tgt: g.acctN()}
 	switch k {
 	case "OPut":
-		o.V = g.r.Intn(3)
+		o.V = []int{0, 1, 2, 3, 3, 4}[g.r.Intn(6)]
 	case "OIssue":
 		o.BT = g.pickBT()
 	case "OIssueAcct":
@@ -183,7 +185,7 @@ func (g *gen) setupTx() []Op {
 	for i := 0; i < n; i++ {
 		a := g.acctN()
 		if g.r.Chance(1, 2) {
-			ops = append(ops, Op{K: "OPut", A: a, P: g.r.Intn(3), V: g.r.Intn(3)})
+			ops = append(ops, Op{K: "OPut", A: a, P: g.r.Intn(3), V: []int{0, 1, 2, 3, 3, 4}[g.r.Intn(6)]})
 		} else {
 			ops = append(ops, Op{K: "OIssue", A: a, P: g.r.Intn(3), BT: g.pickBT(), Slot: g.r.Intn(4)})
 		}
@@ -272,6 +274,31 @@ func scenarios() map[string][][]Op {
 			{K: "OCapCheck", A: 3, Slot: 1, BT: un(4)}, {K: "OCapBorrow", A: 3, Slot: 1, BT: un(6), Typed: true},
 			{K: "OGet", A: 3, Tgt: 2, PP: 2, BT: un(3), Slot: 2}, {K: "OBorrowPub", Tgt: 2, PP: 2, BT: un(3)}, {K: "OBorrowPub", Tgt: 2, PP: 2, BT: un(6)}},
 		{{K: "OPut", A: 2, P: 1, V: 1}, {K: "OCapBorrow", A: 3, Slot: 1, BT: un(3)}, {K: "OCapCheck", A: 3, Slot: 1, BT: un(4)}, {K: "OCapCheck", A: 3, Slot: 1, BT: un(5)}},
+	}
+
+	// top types against values of the other kind: &AnyStruct on a resource, &AnyResource on a struct,
+	// with the value replaced after issue and the controller retargeted
+	var tops []Op
+	for slot, ws := range [][]btyT{{un(6), un(11), un(3)}, {un(11), un(8), un(9), un(10), un(6), st(1, 11)}, {un(10), un(11), un(8), un(6)}} {
+		for _, w := range ws {
+			tops = append(tops, Op{K: "OCapCheck", A: 2, Slot: slot, BT: w}, Op{K: "OCapBorrow", A: 2, Slot: slot, BT: w})
+		}
+		tops = append(tops, Op{K: "OCapBorrow", A: 2, Slot: slot, BT: un(6), Typed: true}, Op{K: "OCapCheck", A: 2, Slot: slot, BT: un(11), Typed: true})
+	}
+	tops = append(tops, Op{K: "OBorrowPub", Tgt: 2, PP: 0, BT: un(6)}, Op{K: "OBorrowPub", Tgt: 2, PP: 1, BT: un(11)},
+		Op{K: "OGet", A: 2, Tgt: 2, PP: 0, BT: un(6), Slot: 3}, Op{K: "OCapCheck", A: 2, Slot: 3, BT: un(6)})
+	sc["top-types"] = [][]Op{
+		{{K: "OPut", A: 2, P: 0, V: 3}, {K: "OIssue", A: 2, P: 0, BT: un(6), Slot: 0}, {K: "OIssue", A: 2, P: 0, BT: un(11), Slot: 1},
+			{K: "OIssue", A: 2, P: 0, BT: un(10), Slot: 2}, {K: "OPublish", A: 2, Slot: 0, PP: 0}, {K: "OPublish", A: 2, Slot: 1, PP: 1}},
+		tops,
+		{{K: "OPut", A: 2, P: 0, V: 0}},
+		tops,
+		{{K: "OPut", A: 2, P: 0, V: 4}, {K: "OPut", A: 2, P: 1, V: 1}},
+		tops,
+		{{K: "ORetarget", A: 2, ID: 2, P: 1}, {K: "ORetarget", A: 2, ID: 1, P: 2}, {K: "OPut", A: 2, P: 2, V: 3}},
+		tops,
+		{{K: "OTake", A: 2, P: 2}, {K: "OTake", A: 2, P: 1}},
+		tops,
 	}
 
 	sc["account-capabilities"] = [][]Op{
